@@ -160,7 +160,15 @@ func (n *H) checkAdoption(pend []Pending) {
 		n.Failf("first connection of the adopted client does not start with CONNECT")
 	}
 	got := packets[1:]
-	// acknowledgement replies may follow (AutoAck is off, so none yet)
+	// (replies to what the broker retransmits of its own traffic are not
+	// transfers of the client)
+	var outbound []*refmqtt.Packet
+	for _, p := range got {
+		if p.Type != refmqtt.PUBACK && p.Type != refmqtt.PUBREC && p.Type != refmqtt.PUBCOMP {
+			outbound = append(outbound, p)
+		}
+	}
+	got = outbound
 	var desc []string
 	for _, p := range got {
 		desc = append(desc, p.String())
